@@ -12,16 +12,16 @@
        cum_i ≤ fL < cum_{i+1}), point_along_eq_arcPoint (= the declarative walk, all f ∈ [0,1]),
        point_along_zero, point_along_one (last vertex / first vertex again if closed), junction_match,
        point_along_lipschitz (|P(f) − P(g)| ≤ L·|f − g|: continuity on all of [0,1])
-    3  subdivide_segment_spec (linspace, endpoint on/off) + TypeError/ValueError, subdivide_segments_spec
+    3  subdivide_segment_spec (linspace, endpoint on/off) + TypeError/ValueError, subdivide_segments_spec,
+       subdivide_segment_total_length, subdivide_segments_total_length (same straight path, length kept)
     4  subdivided_spec (positions of originals and inserts, closedness), edge_inserts_spec (a + (k/n)(b−a)),
        num_needed_least (n = ⌈len/max⌉ is the least n with len/n ≤ max), subdivide_iff_longer,
        subdivided_total_length
-  partial
-    5  with_segments_bisected: bisected_spec_partial (vertex list = midpoints inserted before the end vertex of
+    5  with_segments_bisected: bisected_spec (vertex list = midpoints inserted before the end vertex of
        their segment, closedness, index maps as in with_insertions), bisected_originals, bisected_inserted (the
-       reported rows hold the original vertices / the midpoints), bisected_length;
-       NOT proved: total length unchanged (`bisected_full_statement`) — rests on the correspondence check and
-       the oracle.
+       reported rows hold the original vertices / the midpoints), bisected_length, bisected_total_length (total
+       length unchanged: midpoint split, repeated indices = zero-length segments, rotation invariance of the
+       closed length for the midpoint put in front of vertex 0), bisected_spec_full (all of it, ℝ)
 -/
 import PW.Model.ArcLength
 import PW.Lemmas.Vec
@@ -422,6 +422,41 @@ theorem subdivide_segments_shape_error (v : List (V3 ℝ)) (num : Nat) :
     subdivideSegments false v num = .error .ValueError := rfl
 
 
+/-- `subdivide_segment` returns points of the same straight path: with `endpoint=True` the chain runs from `p1` to `p2`
+    and has the segment's length; with `endpoint=False` it stops one step (`1/num` of the length) short of `p2`. -/
+theorem subdivide_segment_total_length (num : Int) (hn : 2 ≤ num) (endpoint : Bool) (p1 p2 : V3 ℝ) :
+    ∃ l, subdivideSegment true num endpoint true p1 p2 = .ok l ∧
+      pathLen l = if endpoint then ArcLength.dist p1 p2
+        else ArcLength.dist p1 p2 * ((num.toNat - 1 : Nat) : ℝ) / (num.toNat : ℝ) := by
+  refine ⟨_, subdivide_segment_spec num hn endpoint p1 p2, ?_⟩
+  obtain ⟨n, hn'⟩ : ∃ n, num.toNat = n + 2 := ⟨num.toNat - 2, by omega⟩
+  rw [hn']
+  cases endpoint
+  · simp only [Bool.false_eq_true, if_false]
+    rw [show n + 2 = (n + 1) + 1 from rfl, pathLen_even_params p1 p2 (n + 1) (n + 1 + 1) (by omega)]
+    simp
+  · simp only [if_true]
+    rw [show n + 2 = (n + 1) + 1 from rfl, Nat.add_sub_cancel, pathLen_even_params p1 p2 (n + 1) (n + 1) (by omega)]
+    have : ((n + 1 : Nat) : ℝ) ≠ 0 := by positivity
+    field_simp
+
+/-- `subdivide_segments` keeps the total length (and the first and last vertex): every segment is replaced by `num ≥ 1`
+    evenly spaced points lying on it. -/
+theorem subdivide_segments_total_length (v : List (V3 ℝ)) (num : Nat) (hnum : 0 < num) (r : List (V3 ℝ))
+    (h : subdivideSegments true v num = .ok r) :
+    pathLen r = pathLen v ∧ r.head? = v.head? ∧ r.getLast? = v.getLast? := by
+  cases v with
+  | nil => simp [subdivideSegments] at h
+  | cons a rest =>
+    have hl := getLast?_eq_lastOf a rest
+    rw [subdivide_segments_spec (a :: rest) num _ hl] at h
+    simp only [Except.ok.injEq, List.tail_cons] at h
+    obtain ⟨T, hT, hlen⟩ := pathLen_subdivided_chain num hnum a rest
+    rw [← h, hT]
+    refine ⟨hlen, rfl, ?_⟩
+    rw [← hT, hl]
+    simp
+
 /-! ## 4. subdivided_by_length -/
 
 section Floor
@@ -609,11 +644,12 @@ theorem bisected_bad_index (p : Polyline K) (segIdx : List Int)
       simp [this]
   simp [this]
 
-/-- `bisected_spec` (partial, see `bisected_full_statement` for what is missing): for valid segment indices (any multiset, any order, also none) the result is the polyline
+/-- `bisected_spec` (result of the call; the total length is `bisected_total_length`, both together
+    `bisected_spec_full`): for valid segment indices (any multiset, any order, also none) the result is the polyline
     with the same closedness whose vertex list has the midpoint of every chosen segment inserted right before
     that segment's end vertex (`insertBefore`: points carrying the same index keep the order given), returned
     with the index maps of `with_insertions`. -/
-theorem bisected_spec_partial (p : Polyline K) (segIdx : List Int)
+theorem bisected_spec (p : Polyline K) (segIdx : List Int)
     (h : ∀ i ∈ segIdx, -(p.numE : Int) ≤ i ∧ i < p.numE) :
     withSegmentsBisected true p segIdx = .ok
       (⟨insertBefore p.v (bisectPairs p segIdx), p.closed⟩,
@@ -697,11 +733,131 @@ theorem bisected_inserted (p : Polyline K) (segIdx : List Int) (j : Nat) (x : Na
 
 end Bisect
 
-/-- the clause of `with_segments_bisected` which is NOT proved here and rests on the correspondence check and the
-    oracle: the total length is unchanged (for a closed polyline the midpoint of the closing segment goes in
-    front of vertex 0, so this needs invariance of the closed length under rotation of the vertex list). -/
-def bisected_full_statement : Prop :=
-  ∀ (p : Polyline ℝ) (segIdx : List Int), (∀ i ∈ segIdx, -(p.numE : Int) ≤ i ∧ i < p.numE) →
-    totalLength ⟨insertBefore p.v (bisectPairs p segIdx), p.closed⟩ = totalLength p
+/-! ### total length under with_segments_bisected (ℝ) -/
+
+/-- every inserted pair is (index of the end vertex, midpoint) of an existing segment -/
+theorem mem_bisectPairs (p : Polyline ℝ) (segIdx : List Int)
+    (h : ∀ i ∈ segIdx, -(p.numE : Int) ≤ i ∧ i < p.numE) (t : Nat) (m : V3 ℝ)
+    (hm : (t, m) ∈ bisectPairs p segIdx) :
+    ∃ e s, p.segments[e]? = some s ∧ t = (if e + 1 < p.v.length then e + 1 else 0) ∧ m = midpoint s.1 s.2 := by
+  unfold bisectPairs at hm
+  obtain ⟨i, hi, heq⟩ := List.mem_map.mp hm
+  simp only [Prod.mk.injEq] at heq
+  have he : pyIdx p.numE i < p.segments.length := by
+    rw [segments_length_eq_numE]; exact pyIdx_lt _ _ (h i hi)
+  refine ⟨pyIdx p.numE i, p.segments[pyIdx p.numE i], List.getElem?_eq_getElem he, heq.1.symm, ?_⟩
+  rw [← heq.2, List.getD_eq_getElem?_getD, List.getElem?_eq_getElem he]
+  rfl
+
+/-- `with_segments_bisected` leaves the total length unchanged: every midpoint lies on its own segment and
+    splits it into two halves (`dist_split_midpoint`); a segment index given `k` times puts the same midpoint
+    in `k` times, the `k - 1` extra segments have length zero (`pathLen_mid_block`); for a closed polyline the
+    midpoint of the closing segment goes in front of vertex 0, which rotates the cyclic vertex list
+    (`pathLen_rotate`). -/
+theorem bisected_total_length (p : Polyline ℝ) (segIdx : List Int)
+    (h : ∀ i ∈ segIdx, -(p.numE : Int) ≤ i ∧ i < p.numE) :
+    totalLength ⟨insertBefore p.v (bisectPairs p segIdx), p.closed⟩ = totalLength p := by
+  rw [totalLength_eq_pathLen, totalLength_eq_pathLen]
+  unfold closeUp insertBefore
+  simp only
+  rw [insertBeforeFrom_eq_weave]
+  have hF := mem_bisectPairs p segIdx h
+  have hnE := numE_eq p
+  cases hv : p.v with
+  | nil =>
+    have hempty : bisectPairs p segIdx = [] := by
+      cases hb : bisectPairs p segIdx with
+      | nil => rfl
+      | cons x r =>
+        exfalso
+        obtain ⟨e, s, hs, _, _⟩ := hF x.1 x.2 (by rw [hb]; simp)
+        have := (List.getElem?_eq_some_iff.mp hs).1
+        rw [segments_length, hv] at this
+        cases p.closed <;> simp at this
+    rw [hempty]
+    simp [weave, ptsAt]
+  | cons x xs =>
+    rw [hv] at hF
+    -- nothing carries the index `num_v`
+    have hn : ptsAt (bisectPairs p segIdx) (xs.length + 1) = [] := by
+      apply ptsAt_eq_nil
+      intro y hy
+      obtain ⟨e, s, hs, ht, _⟩ := hF y.1 y.2 hy
+      rw [ht]
+      simp only [List.length_cons]
+      split_ifs <;> omega
+    -- the blocks 1 … num_v - 1 hold midpoints of their own segment
+    have hs : StraightFrom (ptsAt (bisectPairs p segIdx)) 1 x xs := by
+      apply straightFrom_of_mid
+      intro k a b ha hb m hm
+      obtain ⟨e, s, hs, ht, hmid⟩ := hF _ _ (mem_ptsAt hm)
+      have hek : e = k := by
+        simp only [List.length_cons] at ht
+        split_ifs at ht <;> omega
+      subst hek
+      obtain ⟨h1, h2, _⟩ := segments_def p e s hs
+      rw [hv] at h1 h2
+      have hlt : e + 1 < (x :: xs).length := (List.getElem?_eq_some_iff.mp hb).1
+      rw [if_pos hlt] at h2
+      rw [ha] at h1; rw [hb] at h2
+      cases h1; cases h2
+      exact hmid
+    cases hc : p.closed
+    · -- open: nothing goes before vertex 0
+      have h0 : ptsAt (bisectPairs p segIdx) 0 = [] := by
+        apply ptsAt_eq_nil
+        intro y hy
+        obtain ⟨e, s, hs, ht, _⟩ := hF y.1 y.2 hy
+        have he := (List.getElem?_eq_some_iff.mp hs).1
+        rw [segments_length, hc, hv] at he
+        simp only [Bool.false_eq_true, if_false, List.length_cons, Nat.add_sub_cancel] at he
+        rw [ht]
+        simp only [List.length_cons]
+        split_ifs <;> omega
+      simp only [Bool.false_eq_true, if_false, List.append_nil]
+      exact pathLen_weave_open _ x xs h0 hn hs
+    · -- closed: block 0 holds midpoints of the closing segment
+      simp only [if_true]
+      have h0 : pathLen (lastOf x xs :: ptsAt (bisectPairs p segIdx) 0 ++ [x]) = ArcLength.dist (lastOf x xs) x := by
+        apply pathLen_mid_block
+        intro m hm
+        obtain ⟨e, s, hs, ht, hmid⟩ := hF _ _ (mem_ptsAt hm)
+        have he := (List.getElem?_eq_some_iff.mp hs).1
+        rw [segments_length, hc, hv] at he
+        simp only [if_true, List.length_cons] at he
+        have hek : e = xs.length := by
+          simp only [List.length_cons] at ht
+          split_ifs at ht <;> omega
+        subst hek
+        obtain ⟨h1, h2, _⟩ := segments_def p _ s hs
+        rw [hv] at h1 h2
+        have hnlt : ¬ (xs.length + 1 < (x :: xs).length) := by simp
+        rw [if_neg hnlt] at h2
+        rw [lastOf_getElem?] at h1
+        simp only [List.getElem?_cons_zero] at h2
+        rw [Option.some.inj h1, Option.some.inj h2]
+        exact hmid
+      have := pathLen_weave_closed _ x xs h0 hn hs
+      simpa using this
+
+/-- `bisected_spec`, full strength over ℝ: for valid segment indices (any multiset, any order, also none) the call
+    succeeds; the result has the same closedness, its vertex list is the original one with the midpoint of every
+    chosen segment inserted right before that segment's end vertex, the index maps are those of
+    `with_insertions` (see `bisected_originals`, `bisected_inserted`, `bisected_length`), and the total length is
+    unchanged. -/
+theorem bisected_spec_full (p : Polyline ℝ) (segIdx : List Int)
+    (h : ∀ i ∈ segIdx, -(p.numE : Int) ≤ i ∧ i < p.numE) :
+    ∃ q orig new, withSegmentsBisected true p segIdx = .ok (q, orig, new) ∧
+      q.v = insertBefore p.v (bisectPairs p segIdx) ∧ q.closed = p.closed ∧
+      orig = indicesOfOriginal p.numV ((bisectPairs p segIdx).map (·.1)) ∧
+      new = indicesOfInserted ((bisectPairs p segIdx).map (·.1)) ∧
+      totalLength q = totalLength p :=
+  ⟨_, _, _, bisected_spec p segIdx h, rfl, rfl, rfl, rfl, bisected_total_length p segIdx h⟩
+
+/-- the hypotheses of `bisected_spec_full` are satisfiable (closed triangle; closing segment twice, by a negative
+    index too, and the first segment) -/
+example : ∃ (p : Polyline ℝ) (segIdx : List Int), segIdx ≠ [] ∧ ∀ i ∈ segIdx, -(p.numE : Int) ≤ i ∧ i < p.numE :=
+  ⟨⟨[⟨0, 0, 0⟩, ⟨3, 0, 0⟩, ⟨3, 4, 0⟩], true⟩, [2, -1, 0], by simp, by
+    simp [Polyline.numE, Polyline.edges, edgesFor, Polyline.numV]⟩
 
 end PW.C08
